@@ -45,6 +45,8 @@ type CaseC18 struct {
 	// Second, if not empty, is parsed afterwards through the SAME Parser value (a Parser is reusable:
 	// the repository's own benchmark does it); it is only run when the first stream was drained to completion.
 	Second string `json:"second,omitempty"`
+	// StatSizeZero: the file ParseFile opens reports size 0 (a FIFO, /dev/stdin behind a pipe): the stream still has all the bytes
+	StatSizeZero bool `json:"stat_size_zero,omitempty"`
 }
 
 // stallReader is the simulated transport between file and producer.
@@ -114,6 +116,7 @@ func genC18(thorough bool) func(t *rapid.T) Case {
 			c.FaultAt = rapid.IntRange(0, len(c.Text)).Draw(t, "fault_at")
 		}
 		c.Comment = rapid.SampledFrom([]int{'#', '#', '#', ';', 0}).Draw(t, "comment_char")
+		c.StatSizeZero = c.Entry == "file" && rapid.IntRange(0, 2).Draw(t, "stat_size_zero") == 2
 		if rapid.IntRange(0, 2).Draw(t, "second_stream") == 2 {
 			second := render(genBook(t, BookOpts{MaxRecipes: 3}), plainLayout)
 			if rapid.Bool().Draw(t, "second_bad") {
@@ -233,6 +236,9 @@ func (c *CaseC18) Eval(ob *Obs) []Finding {
 							chunk = "fixed"
 						}
 						w.Files = []FileSpec{{Path: "/sim/in.yaml", Kind: kind, Data: text, Plan: ReadPlan{FaultAt: -1, Chunk: chunk, MaxChunk: c.ReaderChunk}}}
+						if c.StatSizeZero {
+							w.Files[0].StatSize = new(int64)
+						}
 					}
 					st = verifsim.InstallLight(w)
 					go func() {
